@@ -125,11 +125,15 @@ class UpdateContext():
                     "for simple update skip_on_missing, default "
                     "and raise_on_missing must not be set"
                 )
-        elif value and re.match('{{[^{}]+}}$', update):
+        elif value and re.match(r'{{\s*[^{}\s][^{}]*}}\Z', update):
             # context value update
-            # {{at least one symbol in between, no { or } in between}}
+            # {{at least one non-blank symbol in between,
+            # no { or } in between}}, nothing after the braces
+            # (\Z: unlike $ it does not accept a trailing newline).
+            # Blanks around the key are not a part of it,
+            # as in a formatting string.
             self._context_value = True
-            self._update = update[2:-2]
+            self._update = update[2:-2].strip()
             if not self._has_default and not self._skip_on_missing:
                 self._raise_on_missing = True
         else:
